@@ -79,6 +79,11 @@ ERaise ==
   /\ Is("raise") /\ KeepM
   /\ JobEndG(cfg, S, Ev.n) /\ OutOK(cfg, Ev.n, "exc") /\ S' = JobEndF(cfg, S, Ev.n, "exc")
 
+(* the body ends in CancelledError on its own                                 *)
+ESelfCancel ==
+  /\ Is("self-cancel") /\ KeepM
+  /\ JobEndG(cfg, S, Ev.n) /\ OutOK(cfg, Ev.n, "selfc") /\ S' = JobEndF(cfg, S, Ev.n, "selfc")
+
 ECancel ==
   /\ Is("cancel") /\ Once("cancel", Ev.n)
   /\ IsJob(cfg, Ev.n) /\ S.st[Ev.n] = "cancelling"
@@ -243,6 +248,7 @@ LRunBegin == UNCHANGED <<cfg, tid>> /\ l' = l + 1 /\ ERunBegin
 LStart == UNCHANGED <<cfg, tid>> /\ l' = l + 1 /\ EStart
 LEnd == UNCHANGED <<cfg, tid>> /\ l' = l + 1 /\ EEnd
 LRaise == UNCHANGED <<cfg, tid>> /\ l' = l + 1 /\ ERaise
+LSelfCancel == UNCHANGED <<cfg, tid>> /\ l' = l + 1 /\ ESelfCancel
 LCancel == UNCHANGED <<cfg, tid>> /\ l' = l + 1 /\ ECancel
 LRecancel == UNCHANGED <<cfg, tid>> /\ l' = l + 1 /\ ERecancel
 LCancelDone == UNCHANGED <<cfg, tid>> /\ l' = l + 1 /\ ECancelDone
@@ -272,7 +278,7 @@ QCancelProp == UNCHANGED <<cfg, tid>> /\ l' = l /\ KeepM /\ Has /\ \E s \in Sche
 QShutExpire == UNCHANGED <<cfg, tid>> /\ l' = l /\ KeepM /\ Has /\ \E s \in Scheds(cfg) : ShutExpire(s)
 QShutCancelProp == UNCHANGED <<cfg, tid>> /\ l' = l /\ KeepM /\ Has /\ \E s \in Scheds(cfg) : ShutCancelProp(s)
 
-Logged == LRunBegin \/ LStart \/ LEnd \/ LRaise \/ LCancel \/ LRecancel \/ LCancelDone \/ LCancelRaise \/ LSshut \/ LSshutRet
+Logged == LRunBegin \/ LStart \/ LEnd \/ LRaise \/ LSelfCancel \/ LCancel \/ LRecancel \/ LCancelDone \/ LCancelRaise \/ LSshut \/ LSshutRet
           \/ LSshutCancel \/ LRunEnd \/ LRunExc \/ LDiag \/ LShut \/ LShutDone \/ LShutCancel \/ LTick \/ LSnap
           \/ LTop \/ LTopHang \/ LRes \/ LLeftover \/ LLateHang \/ LStall \/ LShutCancelDone \/ LUserCancel
 Silent == QProcess \/ QTimeout \/ QCancelProp \/ QShutExpire \/ QShutCancelProp
@@ -326,10 +332,10 @@ Why(C, X, e) ==
              ELSE IF X.st[n] = "idle" THEN "start-not-scheduled"
              ELSE IF ~HasRoom(C, X, p) THEN "window-full"
              ELSE "start-other")
-       [] e.k \in {"end", "raise"} ->
+       [] e.k \in {"end", "raise", "self-cancel"} ->
             (IF X.st[n] \in {"cancelling", "cancelled"} THEN "end-after-cancel-" \o byCause
              ELSE IF X.st[n] # "running" THEN "end-not-running"
-             ELSE IF ~OutOK(C, n, IF e.k = "end" THEN "ok" ELSE "exc") THEN "outcome-mismatch"
+             ELSE IF ~OutOK(C, n, IF e.k = "end" THEN "ok" ELSE IF e.k = "raise" THEN "exc" ELSE "selfc") THEN "outcome-mismatch"
              ELSE "end-time")
        [] e.k = "cancel" ->
             (IF X.st[n] = "running" THEN "spurious-cancel-" \o byCause
